@@ -26,9 +26,19 @@ namespace CV
 namespace GSParse
 open GenFlat GenReg GenStruct
 
+/-- `e<array>@<subscript>`: subscript `X`, `Y` or a literal -/
+def elem (t : String) : Option (String × Ix) :=
+  match (t.drop 1).toString.splitOn "@" with
+  | [name, "X"] => some (name, .x)
+  | [name, "Y"] => some (name, .y)
+  | [name, n] => n.toNat?.map fun k => (name, .k k)
+  | _ => none
+
 def atom (t : String) : Option Atom :=
   if t.startsWith "c" then ((t.drop 1).toString.toNat?).bind fun n => if n < 256 then some (Atom.const (BitVec.ofNat 8 n)) else none
-  else if t.startsWith "v" then some (Atom.var (t.drop 1).toString) else none
+  else if t.startsWith "v" then some (Atom.var (t.drop 1).toString)
+  else if t.startsWith "e" then (elem t).map fun p => Atom.el p.1 p.2
+  else none
 
 def bop (t : String) : Option BOp :=
   if t == "add" then some .add else if t == "sub" then some .sub else if t == "and" then some .band
@@ -44,7 +54,9 @@ def ra (t : String) : Option RA :=
 /-- an assignable operand: `rX`, `rY`, `v<name>` (a bare name is accepted as a variable, as in stage 1 tokens) -/
 def lv (t : String) : Option LV :=
   if t == "rX" then some .x else if t == "rY" then some .y
-  else if t.startsWith "v" then some (.var (t.drop 1).toString) else none
+  else if t.startsWith "v" then some (.var (t.drop 1).toString)
+  else if t.startsWith "e" then (elem t).map fun p => LV.el p.1 p.2
+  else none
 
 def flat (t : String) : Option RStmt :=
   match t.splitOn ":" with
@@ -431,29 +443,37 @@ def handle (st : DState) (line : String) : DState × String :=
       else (st, "outside")
     | none => (st, "badreq")
   -- genstruct <tokens> : the stage-2 generator port on a structured program; instruction and label lines
-  | "genstruct" :: toks =>
+  --   an optional first token `abs=t,u` names the arrays declared outside the zero page
+  | "genstruct" :: toks0 =>
+    let (absl, toks) := match toks0 with
+      | t :: r => if t.startsWith "abs=" then ((t.drop 4).toString.splitOn ",", r) else ([], toks0)
+      | [] => ([], toks0)
     match GSParse.program toks with
     | some p =>
       if GenStruct.SInFragment p then
-        (st, "ok " ++ " ".intercalate ((GenStruct.gen {} p).1.map GenStruct.GLine.text))
+        (st, "ok " ++ " ".intercalate ((GenStruct.gen { abs := absl } p).1.map GenStruct.GLine.text))
       else (st, "outside")
     | none => (st, "badreq")
   -- semstruct <fuel> / name=val ... / <tokens> : final values of the named variables (layout: name i at address $80+i)
   | "semstruct" :: fuel :: "/" :: rest =>
     let vars := rest.takeWhile (· != "/")
     let toks := (rest.dropWhile (· != "/")).drop 1
-    let kv := vars.filterMap fun t => match t.splitOn "=" with
-      | [k, v] => v.toNat?.map fun n => (k, n)
+    -- a scalar is `name=val`, an array `name=v0,v1,...` (at least two cells)
+    let kv : List (String × List Nat) := vars.filterMap fun t => match t.splitOn "=" with
+      | [k, v] => some (k, (v.splitOn ",").filterMap String.toNat?)
       | _ => none
-    let names := (kv.map (·.1)).filter fun n => n != "X" && n != "Y"
-    -- layout: cctmp at $80, the named variables from $81 on
-    let L : GenFlat.Layout := fun x => if x == "cctmp" then 0x80 else BitVec.ofNat 16 (0x81 + (names.idxOf x))
-    let m0 := kv.foldl (fun (m : Mem) p => if p.1 == "X" || p.1 == "Y" then m else m.write (L p.1) (BitVec.ofNat 8 p.2)) Mem.zero
-    let reg := fun (n : String) => BitVec.ofNat 8 ((kv.find? (·.1 == n)).map (·.2) |>.getD 0)
+    let mems := kv.filter fun p => p.1 != "X" && p.1 != "Y"
+    -- layout: cctmp at $80, then the named objects one after the other from $81 on
+    let addrs : List (String × Nat) := (mems.foldl (fun (acc : List (String × Nat) × Nat) p => (acc.1 ++ [(p.1, acc.2)], acc.2 + p.2.length)) ([], 0x81)).1
+    let L : GenFlat.Layout := fun x => if x == "cctmp" then 0x80 else BitVec.ofNat 16 ((addrs.find? (·.1 == x)).map (·.2) |>.getD 0xF000)
+    let m0 := mems.foldl (fun (m : Mem) p =>
+      (p.2.zipIdx).foldl (fun (m : Mem) (vi : Nat × Nat) => m.write (L p.1 + BitVec.ofNat 16 vi.2) (BitVec.ofNat 8 vi.1)) m) Mem.zero
+    let reg := fun (n : String) => BitVec.ofNat 8 (((kv.find? (·.1 == n)).bind (·.2.head?)).getD 0)
     match GSParse.program toks, fuel.toNat? with
     | some p, some f =>
       (match GenStruct.sem L f { mem := m0, x := reg "X", y := reg "Y" } p with
-       | some σ => (st, "ok " ++ " ".intercalate ((names.map fun x => x ++ "=" ++ toString (σ.mem.read (L x)).toNat) ++
+       | some σ => (st, "ok " ++ " ".intercalate ((mems.map fun p => p.1 ++ "=" ++
+             ",".intercalate ((List.range p.2.length).map fun i => toString (σ.mem.read (L p.1 + BitVec.ofNat 16 i)).toNat)) ++
            ["X=" ++ toString σ.x.toNat, "Y=" ++ toString σ.y.toNat]))
        | none => (st, "fuel"))
     | _, _ => (st, "badreq")
